@@ -1,6 +1,6 @@
 """C15 — special values and signed zero: control structure and validators (DESIGN §4)."""
 from rules import opts as O
-from rules.core import (guarded, callee_name, path_conditions, reach_alternatives, op_expr, rvalue_expr, show, strip_casts,
+from rules.core import (guarded, guarded_soft, callee_name, path_conditions, reach_alternatives, op_expr, rvalue_expr, show, strip_casts,
                         expr_calls, expr_consts, last_seg, pol_is_variant, strip_generics)
 
 INFO = {
@@ -409,8 +409,8 @@ def run(col, configs, tier):
         guarded(col, rule_case_fold_table, facts)
         guarded(col, rule_special_classification, facts)
         from rules import extra as X2
-        guarded(col, X2.rule_overflow_check_unconditional, facts)
-        guarded(col, X2.rule_special_trailing_trim, facts)
-        guarded(col, X2.rule_pattern_before_input, facts)
+        guarded_soft(col, X2.rule_overflow_check_unconditional, facts)
+        guarded_soft(col, X2.rule_special_trailing_trim, facts)
+        guarded_soft(col, X2.rule_pattern_before_input, facts)
         for crate in ("lexical_write_float", "lexical_parse_float"):
             guarded(col, O.rule_options_builder, facts, crate)
